@@ -5,6 +5,7 @@ import Vata.Proofs.IsectModel
 import Vata.Proofs.PropAux
 import Vata.Proofs.UnionModel
 import Vata.Proofs.IsectBUTotal
+import Vata.Properties.RefTotal
 /-!
 # C02 – Union and intersection of explicit tree automata have exact language semantics
 
@@ -41,8 +42,14 @@ import Vata.Proofs.IsectBUTotal
     `isect_cert` is the principle every product construction rests on; `isectFull` is the product on all pairs.
 * **Reference.**  `isUnionM`, `isIsectM` (`Vata/Lang.lean`) decide "is exactly the union / intersection" for the
   automata the real operations return (all four operations, including `IntersectionBU`).
-* "The operands are left unchanged" is a statement about C++ object state; the models are pure functions, so it has no
-  counterpart here (it is checked by re-reading the operands after the call; the sharing discipline is C11).
+* "The operands are left unchanged" is a statement about C++ object state; the models of this file are pure functions,
+  so it has no counterpart here (it is checked by re-reading the operands after the call).  Its counterpart is in the
+  heap model of C11: `Union` / `ReindexStates` write into the new object only (`C11_ext_reindex_into`),
+  `UnionDisjointStates` shares cluster nodes with both operands and no later write to any of the three objects shows
+  through another (`C11_ext_sharing_results`, `C11_ext_result_survives` in `Vata/Properties/C11_Extended.lean`).
+* **The classes behind the maps** (`Vata/Properties/Util_Glue.lean`): `TranslatorWeak` with the library's counter functor
+  is the lookup-or-create `weakTr` of `unionModel` (`Util_Glue_weak_is_unionModel`), and the helpers that turn the reported
+  maps into the state dictionary of the result are modelled as coded (`Util_Glue_unionDict`, `Util_Glue_productDict`).
 -/
 namespace Vata.Props
 open Vata
@@ -254,7 +261,43 @@ example : isUnionM (unionWith (2 * ·) (2 * · + 1) RenameEx.exA RenameEx.exB) R
 example : isIsectM (isectFull IsectEx.exA IsectEx.exB) IsectEx.exA IsectEx.exB 10 = some true := by decide
 example : isIsectM IsectEx.exA IsectEx.exA IsectEx.exB 10 = some false := by decide
 
+/-! ### the models pass the reference, and the reference answers -/
+
+/-- what the correspondence check relies on, in one statement: above the explicit fuel bound of `C02_reference_total` the
+reference checkers DO answer, and on the results of the models of all four operations – `Union` (fresh maps),
+`UnionDisjointStates` (state-disjoint operands), `Intersection`, `IntersectionBU` – they answer `true`.  So a `false` or a
+disagreement observed on an automaton the real operation returned is a difference between code and model, never an
+artefact of the reference -/
+theorem C02_models_pass_reference (A B : TA) (fuel : Nat) :
+    (fuelBoundM [(unionModel A B [] []).1, A, B] ≤ fuel → isUnionM (unionModel A B [] []).1 A B fuel = some true) ∧
+    ((∀ q, q ∈ A.states → q ∉ B.states) → fuelBoundM [unionDisjoint A B, A, B] ≤ fuel →
+      isUnionM (unionDisjoint A B) A B fuel = some true) ∧
+    (∀ f P m, isectTD A B f = some (P, m) → fuelBoundM [P, A, B] ≤ fuel → isIsectM P A B fuel = some true) ∧
+    (∀ f P m, isectBU A B f = some (P, m) → fuelBoundM [P, A, B] ≤ fuel → isIsectM P A B fuel = some true) := by
+  refine ⟨fun hf => ?_, fun hdis hf => ?_, fun f P m h hf => ?_, fun f P m h hf => ?_⟩
+  · obtain ⟨b, hb, e⟩ := (C02_reference_total _ A B fuel hf).1
+    rw [hb, e.mpr (fun t => unionModel_lang_empty A B t)]
+  · obtain ⟨b, hb, e⟩ := (C02_reference_total _ A B fuel hf).1
+    rw [hb, e.mpr (fun t => unionDisjoint_lang A B hdis t)]
+  · obtain ⟨b, hb, e⟩ := (C02_reference_total P A B fuel hf).2
+    rw [hb, e.mpr (fun t => isectTD_lang h t)]
+  · obtain ⟨b, hb, e⟩ := (C02_reference_total P A B fuel hf).2
+    rw [hb, e.mpr (fun t => isectBU_lang h t)]
+
+example : fuelBoundM [(unionModel UnionEx.exA UnionEx.exB9 [] []).1, UnionEx.exA, UnionEx.exB9] ≤ 64 ∧
+    isUnionM (unionModel UnionEx.exA UnionEx.exB9 [] []).1 UnionEx.exA UnionEx.exB9 64 = some true := ⟨by decide, by decide⟩
+
 /-!
+## closed since the last refresh of this file
+
+* Totality of the reference checkers `isUnionM` / `isIsectM` (they were only known to be exact): `C02_reference_total`
+  (`Vata/Properties/RefTotal.lean`; bound `fuelBoundM [R, A, B] ≤ 2^(|Q_R|+|Q_A|+|Q_B|)`), composed with the models in
+  `C02_models_pass_reference`.
+* "The operands are left unchanged: no counterpart in the pure models" – the counterpart now exists in the extended heap
+  model of C11 (`C11_ext_reindex_into`, `C11_ext_sharing_results`, `C11_ext_result_survives`); see the header.
+* The translators and dictionary helpers around the maps are modelled as coded and checked against the real classes
+  (`Util_Glue_weak_is_unionModel`, `Util_Glue_weak_injective`, `Util_Glue_unionDict`, `Util_Glue_productDict`).
+
 ## not yet proved
 
 * `Union` / `IntersectionBU` called with the SAME map object for both operands, or `IntersectionBU` / `Intersection`
@@ -264,6 +307,13 @@ example : isIsectM IsectEx.exA IsectEx.exA IsectEx.exB 10 = some false := by dec
 * The iteration orders of the hash containers of the C++ are replaced by list orders in `unionModel`, `isectTD`,
   `isectBU`; the theorems do not depend on them (`C02_union_model_any_order`; the products are characterised as sets),
   but the concrete numbers in the maps do.
-* "The operands are left unchanged": no counterpart in the pure models (see the header).
+* **From the maps to the names of the dump.**  The language statements are about the automaton; what the command line
+  prints goes through `CreateUnionStringToStateMap` / `CreateProductStringToStateMap`.  The union names never collide
+  (`Util_Glue_unionNames_injective`), the product names `[l_1|r_2]` DO when state names contain `_1|`
+  (`Util_Glue_productNames_collide`, a finding: the dumped intersection can have a larger language than the computed
+  automaton); they are injective when one operand's names are free of `|` (`Util_Glue_productNames_injective`).  No
+  theorem composes `isectTD` with `productDict` and the dump.
+* The totality bound of the reference is an exponential worst-case bound; for three operands of 9 states each it is above
+  the fuel of the compiled driver (`driver_fuel_worst`), where the driver would report `error fuel`, never a verdict.
 -/
 end Vata.Props
